@@ -1,6 +1,6 @@
 """C11 - cleartext signature framework: what is signed (DESIGN.md 3/C11).  Dash escaping and the cleartext armor framing go
 through regular expressions on symbolic text and are NOT decided here (see OUTSIDE)."""
-from vlib.h import ob, excl
+from vlib.h import ob, excl, native
 from specs import rfc4880_sig as R
 from harness.sigfix import *          # noqa
 from pgpy import PGPMessage
@@ -63,11 +63,11 @@ AREA0 = R.area([R.sp_creation_time(T0_INT)])
 
 
 @ob('O11.1', 'signed octets of a text signature follow RFC 4880 7.1 (line endings canonicalised to CR LF; nothing else changed)',
-    'text of 0..4 symbolic octets over all 256 values (LF, CRLF, lone CR, blanks, non-ASCII); lines ending in SP/HT are the region of known finding KF-C11-trailing-blanks',
-    cond_timeout={'q': 280, 't': 900}, partitions=[['len(text) <= 3'], ['len(text) == 4']])
+    'text of 0..4 (quick) / 0..5 (thorough) symbolic octets over all 256 values (LF, CRLF, lone CR, blanks, non-ASCII); lines ending in SP/HT are the region of known finding KF-C11-trailing-blanks',
+    cond_timeout={'q': 280, 't': 1500}, partitions={'q': [['len(text) <= 3'], ['len(text) == 4']], 't': [['len(text) <= 3'], ['len(text) == 4']] + [['len(text) == 5', 'text[0] %% 8 == %d' % k] for k in range(8)]})
 def signed_text(text: bytes) -> bool:
     """
-    pre: len(text) <= 4
+    pre: len(text) <= 5
     pre: excl('KF-C11-trailing-blanks', has_trailing_blank(text))
     post: _
     """
@@ -149,26 +149,32 @@ ALPHA = ('a', '-', ' ', '\n', '\r', '\t', 'F')
 
 @ob('O11.3', 'written-out-and-read-back round trip of a cleartext-signed message over a small adversarial alphabet: same text, signature still verifies, '
              'dash-escaping applied and removed exactly once (each path is a concrete text: the regular expressions are executed natively, the engine only enumerates the alphabet)',
-    'text of 0..3 (quick) / 0..4 (thorough) characters, each chosen by symbolic index from {a, -, space, LF, CR, TAB, F}; texts with a blank before a line end are excluded '
-    '(finding KF-C11-trailing-blanks); one signer', cond_timeout={'q': 280, 't': 1200},
-    partitions={'q': [['n <= 2']] + [['n == 3', 'c0 == %d' % k] for k in range(7)], 't': [['n <= 2']] + [['n == 3', 'c0 == %d' % k] for k in range(7)] + [['n == 4', 'c0 == %d' % k, 'c1 == %d' % j] for k in range(7) for j in range(7)]})
-def cleartext_roundtrip(n: int, c0: int, c1: int, c2: int, c3: int) -> bool:
+    'text of 0..4 (quick) / 0..5 (thorough) characters, each chosen by symbolic index from {a, -, space, LF, CR, TAB, F}; texts with a blank before a line end are excluded '
+    '(finding KF-C11-trailing-blanks); ASCII only (finding KF-C11-non-ascii-readback, witness O11.3k); one signer', cond_timeout={'q': 280, 't': 1200},
+    partitions={'q': [['n <= 2']] + [['n == 3', 'c0 == %d' % k] for k in range(7)] + [['n == 4', 'c0 == %d' % k] for k in range(7)],
+                't': [['n <= 2']] + [['n == 3', 'c0 == %d' % k] for k in range(7)] + [['n == 4', 'c0 == %d' % k] for k in range(7)] + [['n == 5', 'c0 == %d' % k, 'c1 == %d' % j] for k in range(7) for j in range(7)]})
+def cleartext_roundtrip(n: int, c0: int, c1: int, c2: int, c3: int, c4: int = 0) -> bool:
     """
-    pre: 0 <= n <= 4
-    pre: 0 <= c0 < 7 and 0 <= c1 < 7 and 0 <= c2 < 7 and 0 <= c3 < 7
+    pre: 0 <= n <= 5
+    pre: 0 <= c0 < 7 and 0 <= c1 < 7 and 0 <= c2 < 7 and 0 <= c3 < 7 and 0 <= c4 < 7
     pre: n >= 1 or c0 == 0
     pre: n >= 2 or c1 == 0
     pre: n >= 3 or c2 == 0
     pre: n >= 4 or c3 == 0
+    pre: n >= 5 or c4 == 0
     post: _
     """
     chars = []
-    for j, sym in enumerate((c0, c1, c2, c3)):
+    for j, sym in enumerate((c0, c1, c2, c3, c4)):
         if j < n:
             for k in range(7):
                 if sym == k:
                     chars.append(ALPHA[k])
-    text = ''.join(chars)
+    with native():           # the text is concrete on this path: regular expressions, base64 and the armor code run as in production
+        return _roundtrip_concrete(''.join(chars))
+
+
+def _roundtrip_concrete(text):
     if has_trailing_blank(text.encode()):
         return True
     msg = PGPMessage.new(text, cleartext=True)
@@ -189,6 +195,30 @@ def cleartext_roundtrip(n: int, c0: int, c1: int, c2: int, c3: int) -> bool:
         return bool(PUB.verify(rx))
     finally:
         sigfix.Oracle.multi = False
+
+
+@ob('O11.3k', 'witness of KF-C11-non-ascii-readback: a cleartext-signed message whose text has a non-ASCII character is written out but cannot be read back '
+              '(the written form is not recognised as armor because it is not pure ASCII)',
+    'text = one character chosen by symbolic index from {e-acute, euro sign, U+1F600} followed by 0..1 letters of the O11.3 alphabet', cond_timeout={'q': 120, 't': 120}, known='KF-C11-non-ascii-readback', twin=False)
+def cleartext_roundtrip_non_ascii(u: int, n: int, c0: int) -> bool:
+    """
+    pre: 0 <= u < 3 and 0 <= n <= 1 and 0 <= c0 < 7
+    pre: n == 1 or c0 == 0
+    post: _
+    """
+    chars = []
+    for k in range(3):
+        if u == k:
+            chars.append(('\u00e9', '\u20ac', '\U0001F600')[k])
+    if n == 1:
+        for k in range(7):
+            if c0 == k:
+                chars.append(ALPHA[k])
+    with native():
+        try:
+            return _roundtrip_concrete(''.join(chars))
+        except Exception:
+            return False
 
 
 SANITY = ['cleartext_roundtrip(3, 0, 3, 0, 0)', 'cleartext_roundtrip(4, 1, 1, 3, 1)', 'cleartext_roundtrip(2, 6, 0, 0, 0)', 'cleartext_roundtrip(0, 0, 0, 0, 0)', 'signed_text(b"a\\nb")', 'signed_text(b"a\\r\\nb")', 'signed_text(b"\\n\\n")', 'signed_text(b"a\\rb")', 'signed_text(b" a\\tb")', 'signed_text(b"")',
